@@ -36,7 +36,7 @@ TIMEKINDS = [
     dict(period="dayofweek", tspan=[0, 2]), dict(period="year", tspan=[2020, 2020]),
 ]
 ZSPANS = [None, [0, 10], [10, 20]]
-VALSETS = [dict(vspan=[10, 20]), dict(vspan=[10, 20], fspan=[5, 25]), dict(vspan=[14, 16], fspan=[12, 18])]
+VALSETS = [dict(vspan=[10, 20]), dict(vspan=[10, 20], fspan=[5, 25]), dict(vspan=[14, 16], fspan=[12, 18]), dict(vspan=[10, 20], fspan=[13, 17]), dict(vspan=[12, 22], fspan=[5, 16])]
 
 
 def member_menu():
@@ -55,17 +55,17 @@ def member_menu():
 
 
 MENU = member_menu()
-SUBMENU = [MENU[i] for i in (0, 4, 8, 11, 13, 20, 29, 39, 47, 58, 66, 80)]
+SUBMENU = [MENU[i] for i in (0, 4, 8, 13, 17, 24, 33, 48, 59, 73, 96, 119)]
 
 META = dict(
-    rule="configurations: every member list of length 0..2 over an 81-member menu (9 time kinds incl. 2 absolute "
-         "spans, month, ISO week (both spellings), day-of-year, quarter, day-of-week, year x 3 depth spans x 3 value "
-         "span sets; every other member spelt with reversed spans) [thorough: + every list of length 3 over a 12 "
+    rule="configurations: every member list of length 0..1 and (quick: a third of the second members, thorough: every) list of length 2 over an 135-member menu (9 time kinds incl. 2 absolute "
+         "spans, month, ISO week (both spellings), day-of-year, quarter, day-of-week, year x 3 depth spans x 5 value "
+         "span sets (fail span enclosing, inside and overlapping the valid span); every other member spelt with reversed spans) [thorough: + every list of length 3 over a 12 "
          "member sub-menu]; inputs: product series of 28 calendar-edge instants x 17 values x 7 depths in 3 orders, "
          "the same with all depths missing and with zinp=None, + every sequence of length<=2 over an 18-triple "
          "alphabet; each state = one call of the real climatology_test judged per point by the scalar reference "
          "(datetime.isocalendar etc.). non-trivial = reference demands a flag other than UNKNOWN somewhere",
-    bounds={"quick": {"members_per_list": 2, "menu": 81, "instants": len(TIMES), "values": len(XV), "depths": len(ZV)},
+    bounds={"quick": {"members_per_list": 2, "menu": 135, "instants": len(TIMES), "values": len(XV), "depths": len(ZV)},
             "thorough": {"members_per_list": "2 (menu 81) and 3 (sub-menu 12)", "instants": len(TIMES)}},
     not_judged=["points whose value is missing (C02)"],
     assumptions=["python datetime calendar functions are the calendar oracle"],
@@ -170,9 +170,9 @@ def replay(case):
 
 
 def tasks(tier):
-    ts = [("lists01",)]
+    ts = [("lists01", i) for i in range(-1, len(MENU))]
     for i in range(len(MENU)):
-        ts.append(("lists2", i))
+        ts.append(("lists2", i, tier))
     if tier == "thorough":
         for i in range(len(SUBMENU)):
             ts.append(("lists3", i))
@@ -192,7 +192,7 @@ def run_task(task, acc):
 
     if kind == "lists01":
         def gen():
-            for members in [[]] + [[m] for m in MENU]:
+            for members in ([[]] if task[1] < 0 else [[MENU[task[1]]]]):
                 yield from prod_cases(members)
                 yield dict(members=members, order="stride", cfg="object")
                 for pts in alpha.all_seqs(SMALL, 0, 2):
@@ -200,8 +200,9 @@ def run_task(task, acc):
         run_cases(acc, gen(), check_case)
     elif kind == "lists2":
         a = MENU[task[1]]
+        second = MENU if task[2] == "thorough" else MENU[task[1] % 3::3]
         def gen():
-            for b in MENU:
+            for b in second:
                 yield from prod_cases([a, b])
         run_cases(acc, gen(), check_case)
     elif kind == "lists3":
